@@ -61,7 +61,7 @@ def run_unit(unit, outdir, timeout_ms, workers, second=None):
     cmd = [GOSMT, "-repo", REPO, "-harness", ",".join(os.path.join(VERIF, "harness", h) for h in unit.harness),
            "-entry", unit.entry, "-out", out, "-timeout", str(timeout_ms), "-workers", str(workers), "-solver", SOLVER]
     for k, v in unit.flags.items():
-        if not k.startswith("_"):
+        if not k.startswith("_") and k != "nopanics_off":
             cmd += ["-" + k] + ([str(v)] if v != "" else [])
     if second:
         cmd += ["-second", second]
